@@ -30,6 +30,7 @@ pub fn run_c11(args: &Args) -> Report {
     let mut rep = Report::new("C11", "M8", &args.replay_dir);
     let model = Model::new(&args.model, &args.work);
     let mut rng = Rng::new(args.seed.wrapping_mul(1000).wrapping_add(args.shard as u64).wrapping_add(0xC11));
+    let mut raw_includes = 0usize;
     let total = if args.thorough() { 6000 } else { 480 };
     let n = total / args.shards.max(1);
     rep.rule = "generated directory trees (depth <= 3; sources of the shapes foo.ext.txtpp, foo.txtpp.ext, foo.txtpp, foo.min.js.txtpp, foo.bar.txtpp.ext; look-alikes `txtpp`, `.txtpp`, `a.txtpp.b.c`, `a.txtpp~`, `a.txt`) x input lists (`.`, directories, sources by source name or by output name, `./x`, `dir/../x`, absolute paths, duplicates, missing targets, look-alikes) x recursive on/off x build/clean, base directory different from the process cwd. Oracle (independent restatement of the rule in the harness): on success the set of outputs that exist afterwards = outputs of {named sources} + {sources directly in named directories} + (recursive: in all sub-directories) + (build: their transitive .txtpp dependencies); each output beside its source under the documented name; a named target without source is an error. Also compared with the model.".to_string();
@@ -61,6 +62,23 @@ pub fn run_c11(args: &Args) -> Report {
         if rng.chance(1, 2) {
             p.files.push(("lib.min.txtpp.js".to_string(), b"dotted stem\n".to_vec()));
             p.sources.push("lib.min.txtpp.js".to_string());
+        }
+        // a raw include of another *source file* (`include x.txt.txtpp`, as docs/README.md.txtpp does): its text is
+        // copied, it is not a dependency and must not be processed because of this
+        if rng.chance(1, 2) && p.sources.len() >= 2 {
+            let tops: Vec<String> = p.sources.iter().filter(|s| !s.contains('/')).cloned().collect();
+            if !tops.is_empty() {
+                let host = rng.pick(&tops).clone();
+                let guest = rng.pick(&p.sources).clone();
+                if host != guest {
+                    let c = p.file_mut(&host).unwrap();
+                    if !c.is_empty() && !c.ends_with(b"\n") {
+                        c.extend_from_slice(b"\n");
+                    }
+                    c.extend_from_slice(format!("~\nTXTPP#include {guest}\n~\n").as_bytes());
+                    raw_includes += 1;
+                }
+            }
         }
         // one marker command per source, after everything else: runs exactly once per (final) pass
         for (k, src) in p.sources.clone().iter().enumerate() {
@@ -173,9 +191,13 @@ pub fn run_c11(args: &Args) -> Report {
         cfg.inputs = inputs.clone();
         cfg.recursive = rng.chance(1, 2);
         cfg.threads = 1 + rng.below(4);
-        cfg.mode = if rng.chance(1, 5) { "clean" } else { "build" };
-        if cfg.mode == "clean" {
-            // pre-build everything so that clean has something to remove
+        cfg.mode = match rng.below(10) {
+            0 | 1 => "clean",
+            2 | 3 => "verify",
+            _ => "build",
+        };
+        if cfg.mode != "build" {
+            // pre-build everything so that clean has something to remove and verify something to compare with
             let _ = run_impl(&runner.dir, &RunCfg::build_all(), &runner.log);
         }
         let idx = runner.run_here(&cfg, &p.cmds, vec![format!("{}|rec={}|k={}|err={}", cfg.mode, cfg.recursive, k, expect_err)], &format!("tree #{i} inputs {:?}", inputs));
@@ -200,7 +222,7 @@ pub fn run_c11(args: &Args) -> Report {
                 }
             }
         }
-        if cfg.mode == "build" {
+        if cfg.mode != "clean" {
             let mut stack: Vec<usize> = processed.iter().cloned().collect();
             while let Some(x) = stack.pop() {
                 for d in &deps[x] {
@@ -217,7 +239,7 @@ pub fn run_c11(args: &Args) -> Report {
         } else if c.imp.verdict != "ok" {
             viol(&mut rep, &runner, idx, format!("C11: run over inputs {:?} fails with `{}`", inputs, c.imp.verdict));
         } else {
-            for (j, s) in all_sources.iter().enumerate() {
+            for (j, s) in all_sources.iter().enumerate().filter(|_| cfg.mode != "verify") {
                 let out = expected_output(s);
                 let exists = c.imp.after.files.contains_key(&out);
                 let want = if cfg.mode == "build" { processed.contains(&j) } else { !processed.contains(&j) && c.before.files.contains_key(&out) };
@@ -229,7 +251,7 @@ pub fn run_c11(args: &Args) -> Report {
             }
             // naming the same file several ways (source / output name, ./, dir/../, absolute, duplicates, scanned and
             // named) processes it once: its command ran exactly once
-            if cfg.mode == "build" {
+            if cfg.mode != "clean" {
                 for (j, s) in all_sources.iter().enumerate() {
                     let cnt = c.imp.log.iter().filter(|l| **l == format!("mk{j}")).count();
                     let want = if processed.contains(&j) { 1 } else { 0 };
@@ -260,6 +282,7 @@ pub fn run_c11(args: &Args) -> Report {
             rep.sample(format!("sources {:?}, inputs {:?}, recursive={} => {} ; processed {:?}", all_sources, inputs, cfg.recursive, c.imp.verdict, processed));
         }
     }
+    rep.countn("raw-include-of-a-source-file", raw_includes as u64);
     compare_all(&mut rep, &runner, &model, "C11", "C11.out_txtpp, out_ext_txtpp, out_txtpp_ext, named_by_output_finds_its_source");
     runner.cleanup();
     rep
